@@ -1,6 +1,12 @@
-From Coq Require Import ZArith List Bool Lia.
+(* C05 — copies are faithful and independent.
+   1. every class' copy() transfers the relation link and every init field: an obligation on the GENERATED class table
+      (class_table_faithful, by computation) -> copy_leaf is the identity, every leaf keeps its link;
+   2. with these two facts the structural theorems of Core/CopyIso.v apply: the copy of a (nested) circuit is the original
+      renumbered in listing order, lists the same entries, has the same duration, and copying again changes nothing;
+   3. examples. *)
+From Coq Require Import ZArith List Bool Lia Permutation.
 Import ListNotations.
-From QCE Require Import Base.Prelude Core.Model.
+From QCE Require Import Base.Prelude Core.Model Core.Run Core.BfsProofs Core.BfsWf Core.CopyOrder Core.CopyProofs Core.CopyIso.
 From Gen Require Import Ident Classes.
 Open Scope Z_scope.
 
@@ -13,4 +19,213 @@ Proof.
   unfold class_faithful, copy_leaf. intros H.
   destruct (cs_copy_link _), (cs_copy_qchan _) eqn:Q, (cs_copy_dur _) eqn:D; try discriminate.
   destruct l; reflexivity.
+Qed.
+
+(* ------------------------------------------------------------------ 1. the generated table *)
+(* breaks when some class' copy() forgets a field or the link *)
+Theorem class_table_faithful : forallb class_faithful class_table = true.
+Proof. vm_compute. reflexivity. Qed.
+
+Lemma no_class_faithful : class_faithful no_class = true.
+Proof. reflexivity. Qed.
+
+(* every index, including the out-of-range ones (which denote no_class) *)
+Lemma class_of_faithful c : class_faithful (class_of c) = true.
+Proof.
+  unfold class_of. destruct (nth_in_or_default (Z.to_nat c) class_table no_class) as [H | ->].
+  - exact (proj1 (forallb_forall _ _) class_table_faithful _ H).
+  - exact no_class_faithful.
+Qed.
+
+Theorem copy_leaf_id : forall l, copy_leaf l = l.
+Proof. intros l. apply copy_leaf_faithful. apply class_of_faithful. Qed.
+
+Theorem l_keeps_true : forall l, l_keeps l = true.
+Proof.
+  intros l. unfold l_keeps. pose proof (class_of_faithful (l_cls l)) as H. unfold class_faithful in H.
+  destruct (cs_copy_link (class_of (l_cls l))); [reflexivity | discriminate].
+Qed.
+
+(* ------------------------------------------------------------------ 2. the structural theorems, instantiated *)
+Definition sigma_of (ns : list node) : nat -> nat := pos (bfs (parents ns)).
+
+(* the copy is the original renumbered in listing order *)
+Theorem copy_iso : forall env r ns, cwf (OComp r ns) ->
+  let sigma := sigma_of ns in
+  Permutation (bfs (parents ns)) (seq 0 (length ns)) /\
+  copy_nodes env ns =
+    map (fun i => let n := nth i ns dummy_node in
+                  Node (option_map sigma (n_parent n)) (link_map sigma (n_link n)) (copy_op env (n_op n)))
+        (bfs (parents ns)) /\
+  (forall i n, nth_error ns i = Some n ->
+     nth_error (copy_nodes env ns) (sigma i) =
+       Some (Node (option_map sigma (n_parent n)) (link_map sigma (n_link n)) (copy_op env (n_op n)))) /\
+  bfs (parents (copy_nodes env ns)) = seq 0 (length ns).
+Proof. exact (CopyIso.copy_iso copy_leaf_id l_keeps_true). Qed.
+
+Theorem copy_same_listing : forall env ns, cwf (OComp 1 ns) -> listing env (copy_nodes env ns) = listing env ns.
+Proof. exact (CopyIso.copy_same_listing copy_leaf_id l_keeps_true). Qed.
+
+(* at every nesting level, in every context *)
+Theorem copy_same_listing_op : forall env o, cwf o -> forall c se, listing_op env (copy_op env o) c se = listing_op env o c se.
+Proof. exact (CopyIso.copy_listing copy_leaf_id l_keeps_true). Qed.
+
+Theorem copy_same_duration : forall env ns, cwf (OComp 1 ns) -> comp_duration env (copy_nodes env ns) = comp_duration env ns.
+Proof. exact (CopyIso.copy_same_duration copy_leaf_id l_keeps_true). Qed.
+
+Theorem copy_same_channels : forall env r ns, cwf (OComp r ns) ->
+  op_channels (OComp r (copy_nodes env ns)) = op_channels (OComp r ns).
+Proof. exact (CopyIso.copy_same_channels copy_leaf_id l_keeps_true). Qed.
+
+Theorem copy_of_copy : forall env ns, cwf (OComp 1 ns) -> copy_nodes env (copy_nodes env ns) = copy_nodes env ns.
+Proof. exact (CopyIso.copy_copy copy_leaf_id l_keeps_true). Qed.
+
+Theorem copy_wf : forall env r ns, cwf (OComp r ns) -> cwf (OComp r (copy_nodes env ns)).
+Proof. exact (CopyIso.copy_cwf copy_leaf_id l_keeps_true). Qed.
+
+(* every program (within the documented depth limit) builds a graph the theorems apply to *)
+Theorem run_prog_cwf : forall env r p, sized_prog p -> cwf (OComp r (run_prog env p)).
+Proof. exact (CopyIso.run_prog_cwf copy_leaf_id l_keeps_true). Qed.
+
+Theorem prog_copy_same_listing : forall env p, sized_prog p ->
+  listing env (copy_nodes env (run_prog env p)) = listing env (run_prog env p).
+Proof. exact (CopyIso.prog_copy_same_listing copy_leaf_id l_keeps_true). Qed.
+
+Theorem prog_nested_same_listing : forall env p, sized_prog p ->
+  listing env (run_prog env [CSub 1 p]) = listing env (run_prog env p).
+Proof. exact (CopyIso.prog_nested_same_listing copy_leaf_id l_keeps_true). Qed.
+
+Theorem prog_copy_same_duration : forall env p, sized_prog p ->
+  comp_duration env (copy_nodes env (run_prog env p)) = comp_duration env (run_prog env p).
+Proof. intros env p S. apply copy_same_duration. apply run_prog_cwf. exact S. Qed.
+
+Theorem prog_copy_of_copy : forall env p, sized_prog p ->
+  copy_nodes env (copy_nodes env (run_prog env p)) = copy_nodes env (run_prog env p).
+Proof. intros env p S. apply copy_of_copy. apply run_prog_cwf. exact S. Qed.
+
+(* every internal relation of the copy points to the copy of the original's referent: node i of the original is node
+   sigma i of the copy; its parent pointer and every reference of its link (single or multi) are mapped by sigma *)
+Theorem prog_relations_repointed : forall env p, sized_prog p ->
+  let ns := run_prog env p in
+  let sigma := sigma_of ns in
+  forall i n, nth_error ns i = Some n ->
+    nth_error (copy_nodes env ns) (sigma i) =
+      Some (Node (option_map sigma (n_parent n)) (link_map sigma (n_link n)) (copy_op env (n_op n))).
+Proof.
+  intros env p S ns sigma. exact (proj1 (proj2 (proj2 (copy_iso env 1 ns (run_prog_cwf env 1 p S))))).
+Qed.
+
+(* the copy lists in its own insertion order *)
+Theorem prog_copy_listing_order : forall env p, sized_prog p ->
+  bfs (parents (copy_nodes env (run_prog env p))) = seq 0 (length (run_prog env p)).
+Proof.
+  intros env p S. exact (proj2 (proj2 (proj2 (copy_iso env 1 _ (run_prog_cwf env 1 p S))))).
+Qed.
+
+(* a circuit whose repetition was unrolled at the top level (repeat_nodes: copies appended behind multi-links) *)
+Theorem repeat_nodes_cwf : forall env r ns k, cwf (OComp r ns) -> all_listed (repeat_nodes env ns k) ->
+  cwf (OComp r (repeat_nodes env ns k)).
+Proof. exact (CopyIso.repeat_nodes_cwf copy_leaf_id l_keeps_true). Qed.
+
+Theorem prog_repeated_copy_same_listing : forall env p k, sized_prog p ->
+  all_listed (repeat_nodes env (run_prog env p) k) ->
+  listing env (copy_nodes env (repeat_nodes env (run_prog env p) k)) = listing env (repeat_nodes env (run_prog env p) k).
+Proof. intros env p k S AL. apply copy_same_listing. apply repeat_nodes_cwf; [apply run_prog_cwf; exact S | exact AL]. Qed.
+
+(* REMARK (independence).  In the functional model a copy shares nothing with the original: `copy_nodes env ns` is a value,
+   and nothing done to `ns` afterwards (add_node, extend, repeat_nodes, apply_modifiers all RETURN new lists) can change
+   what `listing env (copy_nodes env ns)` denotes -- the statement "forall f, listing env (copy_nodes env ns) does not
+   depend on f ns" is true by the absence of state, not a theorem worth stating.  Independence of the IMPLEMENTATION's
+   objects (no shared mutable nodes / links / caches between a circuit and its copy) is an observation of the correspondence
+   run: flags k_copy_unchanged / k_orig_unchanged of coq/C05/Run.v, judged by spec_ok. *)
+
+(* ------------------------------------------------------------------ 3. examples *)
+Definition ex_env : denv := mk_env 8 2 4 16 [].
+Definition ex_leaf (lab cls q : Z) : leaf := mk_leaf lab cls [q] QubitChannel_ALL (default_dstrat cls) None.
+
+(* two qubits; a repeated block holding a nested block and a JOINED_START relation; FOLLOWED_BY and JOINED_END relations at
+   the top; a dangling relation; a measurement that shares no channel with the gates before it (a second root, inserted
+   late): insertion order and listing order differ *)
+Definition ex_prog : list cmd :=
+  [ CAdd (ex_leaf 0 C_Rx180 0) None;
+    CSub 2 [ CAdd (ex_leaf 1 C_Rx90 0) None; CAdd (ex_leaf 2 C_Ry90 1) None;
+             CSub 1 [ CAdd (mk_leaf 3 C_CPhase [0; 1] QubitChannel_ALL (DGlobal GFlux) None) None ];
+             CAdd (ex_leaf 4 C_Rxm90 0) (Some (RelationType_JOINED_START, 1%nat)) ];
+    CAdd (ex_leaf 5 C_Ry180 1) (Some (RelationType_FOLLOWED_BY, 0%nat));
+    CDangling (ex_leaf 6 C_Rx180 0) RelationType_FOLLOWED_BY;
+    CAdd (mk_leaf 7 C_DispersiveMeasure [0] QubitChannel_ALL (DGlobal GReadout) (Some (0, 0))) None;
+    CAdd (ex_leaf 8 C_Rx180 1) (Some (RelationType_JOINED_END, 0%nat)) ].
+
+Example ex_sized : sized_prog ex_prog.
+Proof. split; [vm_compute; discriminate|]. repeat (constructor; try (vm_compute; discriminate)). Qed.
+
+(* the hypotheses of the structural theorems hold of it *)
+Example ex_cwf : cwf (OComp 1 (run_prog ex_env ex_prog)).
+Proof. apply run_prog_cwf. exact ex_sized. Qed.
+
+(* sigma is not the identity: the measurement (inserted fifth) is listed second *)
+Example ex_order : bfs (parents (run_prog ex_env ex_prog)) = [0; 4; 1; 2; 5; 3]%nat
+                   /\ map (sigma_of (run_prog ex_env ex_prog)) (seq 0 6) = [0; 2; 3; 5; 1; 4]%nat.
+Proof. split; vm_compute; reflexivity. Qed.
+
+(* so the copy is a different graph (parent pointers and links renumbered) ... *)
+Example ex_copy_differs :
+  map (fun n => (n_parent n, n_link n)) (run_prog ex_env ex_prog)
+    = [ (None, LNone); (Some 0, LRel RelationType_FOLLOWED_BY 0); (Some 0, LRel RelationType_FOLLOWED_BY 0);
+        (Some 1, LRel RelationType_FOLLOWED_BY 1); (None, LNone); (Some 0, LRel RelationType_JOINED_END 0) ]%nat
+  /\ map (fun n => (n_parent n, n_link n)) (copy_nodes ex_env (run_prog ex_env ex_prog))
+    = [ (None, LNone); (None, LNone); (Some 0, LRel RelationType_FOLLOWED_BY 0); (Some 0, LRel RelationType_FOLLOWED_BY 0);
+        (Some 0, LRel RelationType_JOINED_END 0); (Some 2, LRel RelationType_FOLLOWED_BY 2) ]%nat.
+Proof. split; vm_compute; reflexivity. Qed.
+
+(* ... that lists the same entries, by the theorem; the listing is not trivial (10 entries: the block of node 1 is NOT
+   unrolled by listing, 4 leaves inside, in the order 0 7 1 2 3 4 5 8 6) *)
+Example ex_copy_listing :
+  listing ex_env (copy_nodes ex_env (run_prog ex_env ex_prog)) = listing ex_env (run_prog ex_env ex_prog)
+  /\ map (fun e => l_lab (e_leaf e)) (listing ex_env (run_prog ex_env ex_prog)) = [0; 7; 1; 2; 3; 4; 5; 8; 6].
+Proof. split; [apply prog_copy_same_listing; exact ex_sized | vm_compute; reflexivity]. Qed.
+
+Example ex_nested_listing :
+  listing ex_env (run_prog ex_env [CSub 1 ex_prog]) = listing ex_env (run_prog ex_env ex_prog).
+Proof. apply prog_nested_same_listing. exact ex_sized. Qed.
+
+(* the same equalities checked by computation (the theorems are not vacuous on this input) *)
+Example ex_computed :
+  list_eqb (fun a b => (l_lab (e_leaf a) =? l_lab (e_leaf b)) && (e_start a =? e_start b) && (e_end a =? e_end b))
+           (listing ex_env (copy_nodes ex_env (run_prog ex_env ex_prog))) (listing ex_env (run_prog ex_env ex_prog)) = true
+  /\ comp_duration ex_env (copy_nodes ex_env (run_prog ex_env ex_prog)) = comp_duration ex_env (run_prog ex_env ex_prog).
+Proof. split; vm_compute; reflexivity. Qed.
+
+(* a graph with multi-links (an unrolled repetition) whose insertion order is not its listing order *)
+Definition ex_flat : list cmd :=
+  [ CAdd (ex_leaf 0 C_Rx180 0) None; CAdd (ex_leaf 1 C_Rx90 0) None; CAdd (ex_leaf 2 C_Ry90 1) None ].
+Definition ex_unrolled : list node := repeat_nodes ex_env (run_prog ex_env ex_flat) 3.
+
+Example ex_unrolled_cwf : cwf (OComp 1 ex_unrolled).
+Proof.
+  assert (G : ginv ex_unrolled) by (apply repeat_nodes_ginv, run_prog_ginv).
+  constructor; [exact G | |].
+  - apply small_all_listed; [exact (proj1 G)|]. replace (length ex_unrolled) with 9%nat by (vm_compute; reflexivity).
+    pose proof max_layers_eq. lia.
+  - vm_compute. repeat constructor.
+Qed.
+
+Example ex_unrolled_links :
+  map (fun n => (n_parent n, n_link n)) ex_unrolled
+    = [ (None, LNone); (Some 0, LRel RelationType_FOLLOWED_BY 0); (None, LNone);
+        (Some 1, LMulti [2; 1]); (Some 1, LMulti [2; 1]); (Some 3, LRel RelationType_FOLLOWED_BY 3);
+        (Some 5, LMulti [2; 4; 5]); (Some 5, LMulti [2; 4; 5]); (Some 6, LRel RelationType_FOLLOWED_BY 6) ]%nat
+  /\ bfs (parents ex_unrolled) = [0; 2; 1; 3; 4; 5; 6; 7; 8]%nat
+  /\ map (fun n => (n_parent n, n_link n)) (copy_nodes ex_env ex_unrolled)
+    = [ (None, LNone); (None, LNone); (Some 0, LRel RelationType_FOLLOWED_BY 0);
+        (Some 2, LMulti [1; 2]); (Some 2, LMulti [1; 2]); (Some 3, LRel RelationType_FOLLOWED_BY 3);
+        (Some 5, LMulti [1; 4; 5]); (Some 5, LMulti [1; 4; 5]); (Some 6, LRel RelationType_FOLLOWED_BY 6) ]%nat.
+Proof. repeat split; vm_compute; reflexivity. Qed.
+
+Example ex_unrolled_copy :
+  listing ex_env (copy_nodes ex_env ex_unrolled) = listing ex_env ex_unrolled
+  /\ copy_nodes ex_env (copy_nodes ex_env ex_unrolled) = copy_nodes ex_env ex_unrolled
+  /\ length (listing ex_env ex_unrolled) = 9%nat.
+Proof.
+  split; [apply copy_same_listing, ex_unrolled_cwf|]. split; [apply copy_of_copy, ex_unrolled_cwf | vm_compute; reflexivity].
 Qed.
